@@ -27,7 +27,7 @@ def run(pid, tier, seed):
     rep.add_tlc(r2)
     rep.exhaustive = True
     inits, adj, ne = vlib.load_graph(doth)
-    th, cov, tot = vlib.tours(inits, adj, max_len=10, rng=rng, max_tours=None if big else 3000)
+    th, cov, tot = vlib.tours(inits, adj, max_len=10, rng=rng, max_tours=20000 if big else 3000)
     rep.extra.update(host_graph_edges=ne, host_tour_edges=cov, host_tours=len(th))
     inits, adj, ne2 = vlib.load_graph(dotr)
     trr, cov2, tot2 = vlib.tours(inits, adj, max_len=12, rng=rng)
